@@ -11,12 +11,12 @@ pub static DEF: CheckDef = CheckDef {
     id: "C15",
     run,
     replay,
-    rule: "proptest frames: VRAM from a seed in three styles (arbitrary bytes; sparse tile data with small map alphabets; solid / striped tiles), OAM of 0-40 generated objects (Y and X biased to the screen edges, to X in 1..7 and 161..167, to one shared line so that more than ten compete, to equal X; any tile and attribute byte), SCX/SCY any, WX in {0..6, 7..166, 167..255}, WY any (biased to 0..143), BGP/OBP0/OBP1 any, LCDC bits 1-6 any with bits 0 and 7 set, all held constant. The machine is driven from power-on through one whole frame (70224 clocks) twice - in 4-clock batches and in generated larger batches - and the buffer presented at VBlank is compared pixel by pixel with the reference composition (models::ppu); both runs must also agree with each other. Non-trivial = frame with window pixels visible, an object pixel visible, a BG-over-OBJ pixel, a line with more than ten candidate objects, a flipped or 8x16 object pixel, or overlapping objects (measured on the reference); distinct by hash of the case.",
+    rule: "proptest frames: VRAM from a seed in three styles (arbitrary bytes; sparse tile data with small map alphabets; solid / striped tiles), OAM of 0-40 generated objects (Y and X biased to the screen edges, to X in 1..7 and 161..167, to one shared line so that more than ten compete, to equal X; any tile and attribute byte), SCX/SCY any, WX in {0..6, 7..166, 167..255}, WY any (biased to 0..143), BGP/OBP0/OBP1 any, LCDC bits 1-6 any with bits 0 and 7 set, all held constant over the frame. In two cases out of five one or two earlier frames with other LCDC / scroll / window / OAM contents are presented first (registers and OAM rewritten at the start of the vertical blank), and the measured frame must not depend on them. The machine is driven from power-on through the frame(s) (70224 clocks each) twice - in 4-clock batches and in generated larger batches - and the buffer presented at VBlank is compared pixel by pixel with the reference composition (models::ppu); both runs must also agree with each other. Non-trivial = frame with window pixels visible, an object pixel visible, a BG-over-OBJ pixel, a line with more than ten candidate objects, a flipped or 8x16 object pixel, or overlapping objects (measured on the reference); distinct by hash of the case.",
     assumptions: &[
         "models::ppu: first ten objects in OAM order whose rows cover the line regardless of X; lowest X then lowest OAM index; the first non-transparent object pixel decides and carries its own BG-over-OBJ bit; window where LCDC.5 and y >= WY and x+7 >= WX and WX <= 166, its row counted as y - WY; signed tile addressing when LCDC.4 = 0; 8x16 objects ignore bit 0 of the tile index",
         "registers, VRAM and OAM constant over the frame; LCD and BG enabled (LCDC bits 7 and 0 set); DMG window glitches at WX = 0 / 166 are out of scope",
     ],
-    required_classes: &["window-visible", "object-visible", "bg-over-obj", "more-than-ten-on-a-line", "flipped-object", "tall-object", "overlapping-objects", "object-partly-off-screen", "wx-below-7", "wx-above-166", "signed-tile-addressing"],
+    required_classes: &["window-visible", "object-visible", "bg-over-obj", "more-than-ten-on-a-line", "flipped-object", "tall-object", "overlapping-objects", "object-partly-off-screen", "wx-below-7", "wx-above-166", "signed-tile-addressing", "after-earlier-frames", "objects-switched-off-between-frames", "window-switched-off-between-frames"],
     exhaustive: false,
 };
 
@@ -34,6 +34,10 @@ struct Case {
     obp0: u8,
     obp1: u8,
     cuts: Vec<u16>,
+    /// frames presented before the measured one: (LCDC, SCX, SCY, WX, WY, OAM); VRAM and
+    /// palettes stay; registers and OAM are changed at the start of the vertical blank
+    #[serde(default)]
+    pre: Vec<(u8, u8, u8, u8, u8, Vec<[u8; 4]>)>,
 }
 
 fn case_json(c: &Case) -> Value {
@@ -143,6 +147,16 @@ fn setup(m: &mut i::M, c: &Case, vram: &[u8], oam: &[u8]) {
     m.write(0xff4b, c.wx);
 }
 
+/// change registers and OAM without resetting the device (done during the vertical blank)
+fn rewrite(m: &mut i::M, c: &Case, oam: &[u8]) {
+    m.core.memory.oam_ram.copy_from_slice(oam);
+    m.write(0xff40, c.lcdc | 0x81);
+    m.write(0xff42, c.scy);
+    m.write(0xff43, c.scx);
+    m.write(0xff4a, c.wy);
+    m.write(0xff4b, c.wx);
+}
+
 struct Machines {
     a: i::M,
     b: i::M,
@@ -208,6 +222,15 @@ fn exec(ms: &mut Machines, c: &Case, rec: &mut Rec, counting: bool) -> CaseResul
         if c.lcdc & 0x10 == 0 {
             rec.class("signed-tile-addressing", 1);
         }
+        if !c.pre.is_empty() {
+            rec.class("after-earlier-frames", 1);
+            if c.pre.iter().any(|p| p.0 & 2 != 0) && c.lcdc & 2 == 0 {
+                rec.class("objects-switched-off-between-frames", 1);
+            }
+            if c.pre.iter().any(|p| p.0 & 0x20 != 0) && c.lcdc & 0x20 == 0 {
+                rec.class("window-switched-off-between-frames", 1);
+            }
+        }
         for bit in 1..7 {
             if c.lcdc & (1 << bit) != 0 {
                 rec.class(&format!("lcdc-bit{}", bit), 1);
@@ -218,8 +241,39 @@ fn exec(ms: &mut Machines, c: &Case, rec: &mut Rec, counting: bool) -> CaseResul
         }
     }
     let r = guarded(|| {
-        setup(&mut ms.a, c, &vram, &oam);
-        setup(&mut ms.b, c, &vram, &oam);
+        // earlier frames with other settings: what is presented afterwards must not depend on them
+        let mut first = true;
+        for (lcdc, scx, scy, wx, wy, poam) in &c.pre {
+            let mut pc = c.clone();
+            pc.lcdc = *lcdc | 0x81;
+            pc.scx = *scx;
+            pc.scy = *scy;
+            pc.wx = *wx;
+            pc.wy = *wy;
+            pc.oam = poam.clone();
+            let po = build_oam(&pc);
+            for m in [&mut ms.a, &mut ms.b] {
+                if first {
+                    setup(m, &pc, &vram, &po);
+                } else {
+                    rewrite(m, &pc, &po);
+                }
+            }
+            first = false;
+            for _ in 0..(70224 / 4) {
+                ms.a.run_clocks(4);
+            }
+            for p in cut_sizes(70224, &c.cuts) {
+                ms.b.run_clocks(p as usize);
+            }
+        }
+        if first {
+            setup(&mut ms.a, c, &vram, &oam);
+            setup(&mut ms.b, c, &vram, &oam);
+        } else {
+            rewrite(&mut ms.a, c, &oam);
+            rewrite(&mut ms.b, c, &oam);
+        }
         for _ in 0..(70224 / 4) {
             ms.a.run_clocks(4);
         }
@@ -274,8 +328,12 @@ fn case_strategy() -> impl Strategy<Value = Case> {
         (any::<u64>(), 0u8..4, prop::collection::vec(oam_entry(), 0..=40)),
         (any::<u8>(), any::<u8>(), any::<u8>(), wx, wy),
         (pal.clone(), pal.clone(), pal, prop::collection::vec(any::<u16>(), 0..6)),
+        prop_oneof![
+            3 => Just(Vec::new()),
+            2 => prop::collection::vec((any::<u8>(), any::<u8>(), any::<u8>(), any::<u8>(), 0u8..150, prop::collection::vec(oam_entry(), 0..=40)), 1..3),
+        ],
     )
-        .prop_map(|((vram_seed, vram_kind, oam), (lcdc, scx, scy, wx, wy), (bgp, obp0, obp1, cuts))| Case { vram_seed, vram_kind, oam, lcdc: lcdc | 0x81, scx, scy, wx, wy, bgp, obp0, obp1, cuts })
+        .prop_map(|((vram_seed, vram_kind, oam), (lcdc, scx, scy, wx, wy), (bgp, obp0, obp1, cuts), pre)| Case { vram_seed, vram_kind, oam, lcdc: lcdc | 0x81, scx, scy, wx, wy, bgp, obp0, obp1, cuts, pre })
 }
 
 fn run(rec: &mut Rec) {
@@ -290,7 +348,7 @@ fn run(rec: &mut Rec) {
         exec(&mut cell.borrow_mut(), c, rec, counting)
     });
     rec.sample(|| {
-        case_json(&Case { vram_seed: 1, vram_kind: 2, oam: vec![[16, 8, 3, 0], [20, 12, 2, 0x80]], lcdc: 0xf7, scx: 3, scy: 250, wx: 87, wy: 40, bgp: 0xe4, obp0: 0xe4, obp1: 0x1b, cuts: vec![0x8000] })
+        case_json(&Case { vram_seed: 1, vram_kind: 2, oam: vec![[16, 8, 3, 0], [20, 12, 2, 0x80]], lcdc: 0xf7, scx: 3, scy: 250, wx: 87, wy: 40, bgp: 0xe4, obp0: 0xe4, obp1: 0x1b, cuts: vec![0x8000], pre: vec![] })
     });
 }
 
